@@ -17,7 +17,9 @@ LEAN_MODULES = ["TempestVerif.Props.C11", "TempestVerif.Props.C11Pipeline", "Tem
                 "TempestVerif.Props.C11Source"]
 RULE = ("(1) warmup-evidence: real Sampler iterations in the prior-sampling phase (ess_ratio chosen so that beta stays 0 for 1..8 "
         "iterations; n_particles in {1,2,3,4,5,8,16,32,64}; d in {1,2,3}; no blobs / blobs_dtype declared / blobs returned without a "
-        "declaration; vectorised and per-point likelihood), np.random.rand replaced by a tape of BLOCKS of dyadic points so that the "
+        "declaration; vectorised and per-point likelihood; the likelihood hands its values back as float64 / float32 / float16 arrays, "
+        "a non-contiguous float64 view, a Fortran-ordered float32 column, Python floats, np.float32 / np.float16 scalars or 0-d arrays "
+        "- stored values are compared at the precision of the form), np.random.rand replaced by a tape of BLOCKS of dyadic points so that the "
         "number of finite draws of every block is scripted (likelihood is -inf exactly on x0 < threshold; in 12% of the runs some "
         "iteration first receives 1-3 blocks with no finite draw, which the sampler must discard and draw again since /repo 959029e; "
         "2 runs per 250 script 1000 such blocks with n in {1,2}: the cap must raise and nothing may be committed), np.random.choice "
@@ -76,7 +78,36 @@ def _like1(x, thr=0.0):
     return -np.inf if x[0] < thr else -0.5 * float(np.sum(x ** 2))
 
 
-def run_warmup(rng, n, fins, d=1, blobs=False, vectorize=False, blob_mode=None):
+# forms in which the user's likelihood may hand back its values (all accepted by the unchanged sampler; Python lists, (n, 1)
+# columns, object and long-double arrays raise in `_log_like` / `np.isinf` and are outside the supported inputs)
+VEC_FORMS = ("f64", "f32", "f16", "view", "fortran_f32")
+SCALAR_FORMS = ("py", "np_f32", "np_f16", "zero_d")
+
+
+def _as_form(vals, form):
+    """the array a vectorised likelihood returns for the float64 values `vals`"""
+    a = np.array(vals, dtype=np.float64)
+    if form == "f32":
+        return a.astype(np.float32)
+    if form == "f16":
+        return a.astype(np.float16)
+    if form == "view":                      # non-contiguous float64 view of a larger buffer
+        return np.stack([a, a + 1.0], axis=1)[:, 0]
+    if form == "fortran_f32":               # float32 column of a Fortran-ordered work array
+        return np.asfortranarray(np.stack([a, a], axis=1).astype(np.float32))[:, 1]
+    return a
+
+
+def _stored_value(v, form):
+    """what a correct sampler may store for the float64 likelihood value v returned in `form` (precision of the form)"""
+    if form in ("f16", "np_f16"):
+        return float(np.float16(v))
+    if form in ("f32", "np_f32", "fortran_f32"):
+        return float(np.float32(v))
+    return float(v)
+
+
+def run_warmup(rng, n, fins, d=1, blobs=False, vectorize=False, blob_mode=None, ret_form=None):
     """fins[k] = number of finite draws wanted in warm-up iteration k; returns per-iteration records.
     blob_mode: "none" | "declared" (blobs_dtype given) | "undeclared" (the likelihood returns (logl, blob) and no
     blobs_dtype is given: the documented form, handled since /repo 9130321)."""
@@ -84,6 +115,8 @@ def run_warmup(rng, n, fins, d=1, blobs=False, vectorize=False, blob_mode=None):
     if blob_mode is None:
         blob_mode = "declared" if blobs else "none"
     have_blobs = blob_mode != "none"
+    if ret_form is None:
+        ret_form = "f64" if vectorize else "py"
     k = len(fins)
     thr = 0.0     # x0 < 0  <=> u0 < 1/2  -> -inf
     evaluated = []      # every point the likelihood was asked about, in order
@@ -92,9 +125,15 @@ def run_warmup(rng, n, fins, d=1, blobs=False, vectorize=False, blob_mode=None):
         if vectorize:
             X = np.atleast_2d(x)
             evaluated.extend(np.array(r, dtype=float) for r in X)
-            return np.array([_like1(r, thr) for r in X])
+            return _as_form([_like1(r, thr) for r in X], ret_form)
         evaluated.append(np.array(x, dtype=float))
         l = _like1(x, thr)
+        if ret_form == "np_f32":
+            l = np.float32(l)
+        elif ret_form == "np_f16":
+            l = np.float16(l)
+        elif ret_form == "zero_d":
+            l = np.array(l)
         return (l, float(x[0])) if have_blobs else l
 
     def prior(u):
@@ -155,7 +194,7 @@ def run_warmup(rng, n, fins, d=1, blobs=False, vectorize=False, blob_mode=None):
         su = np.array(s.state.get_history("u", it), dtype=float)
         sx = np.array(s.state.get_history("x", it), dtype=float)
         sl = np.array(s.state.get_history("logl", it), dtype=float)
-        whole = all(np.array_equal(sx[j], prior(su[j])) and (sl[j] == _like1(sx[j], thr)) for j in range(n))
+        whole = all(np.array_equal(sx[j], prior(su[j])) and (sl[j] == _stored_value(_like1(sx[j], thr), ret_form)) for j in range(n))
         sb = None
         if have_blobs:
             sb = np.array(s.state.get_history("blobs", it), dtype=float).reshape(n)
@@ -180,7 +219,7 @@ def run_warmup(rng, n, fins, d=1, blobs=False, vectorize=False, blob_mode=None):
         elif nfin == n and choice_calls:
             sites = f"np.random.choice called {len(choice_calls)} time(s) for a batch with {nfin} of {n} finite draws"
         recs.append({"beta": float(cur["beta"]), "logz": float(cur["logz"]), "n": n, "nfin": nfin, "ndrawn": K * n,
-                     "counts": counts, "raised": None,
+                     "counts": counts, "raised": None, "ret_form": ret_form,
                      "flags": "".join("1" if float(v) >= 0.5 else "0" for v in u0),
                      "flags_blocks": ["".join("1" if float(v) >= 0.5 else "0" for v in b) for b in u0s],
                      "picks": picks, "U": U, "UF": UF, "UFs": UFs, "Uall": allU,
@@ -276,13 +315,14 @@ def _correspond_evidence(tier, drv):
         vectorize = rng.random() < 0.2
         blob_mode = "none" if vectorize else rng.choice(["none", "none", "declared", "undeclared", "undeclared"])
         d = rng.choice([1, 2, 3])
-        recs = run_warmup(rng, n, fins, d=d, vectorize=vectorize, blob_mode=blob_mode)
+        ret_form = rng.choice(VEC_FORMS) if vectorize else rng.choice(("py", "py", "py") + SCALAR_FORMS)
+        recs = run_warmup(rng, n, fins, d=d, vectorize=vectorize, blob_mode=blob_mode, ret_form=ret_form)
         done = [r for r in recs if not r["raised"]]
         lines.append("warmR.Q bs=" + ";".join(f"{n}:{r['nfin']}:{r['ndrawn']}" for r in done) if done else "warmR.Q bs=1:1:1")
         for r in recs:
             lines.append(f"warmR.rep n={n} blocks={'!'.join(r['flags_blocks'])} picks={','.join(map(str, r['picks'])) if r['picks'] else '-'}")
         lines.append(_sm_line(blob_mode, vectorize, recs))
-        all_recs.append((n, fins, recs, d, blob_mode, vectorize))
+        all_recs.append((n, fins, recs, d, blob_mode, vectorize, ret_form))
         nontriv = k >= 2 and any(_corrected(f, n) for f in fins)
         c.case((n, fins), nontriv)
         c2.case((n, fins, d, blob_mode, vectorize), any(0 < _fin_last(f) < n for f in fins))
@@ -293,6 +333,7 @@ def _correspond_evidence(tier, drv):
             cc.count(f"blobs={blob_mode}")
             if vectorize:
                 cc.count("vectorize")
+            cc.count(f"logl_form={ret_form}")
             if redraw:
                 cc.count("runs_with_discarded_blocks")
             cc.count("discarded_blocks", sum(len(f) - 1 for f in fins if isinstance(f, list)))
@@ -305,7 +346,7 @@ def _correspond_evidence(tier, drv):
         c2.count("rows_compared", n * len(done))
         c2.count("rows_replaced", sum(len(r["picks"]) for r in done))
     answers = iter(drv.batch(lines))
-    for (n, fins, recs, d, blob_mode, vectorize) in all_recs:
+    for (n, fins, recs, d, blob_mode, vectorize, ret_form) in all_recs:
         ans = next(answers)
         done = [r for r in recs if not r["raised"]]
         line = "warmR.Q bs=" + ";".join(f"{n}:{r['nfin']}:{r['ndrawn']}" for r in done)
@@ -343,7 +384,7 @@ def _correspond_evidence(tier, drv):
                 prob = f"iteration {it + 1}: {r['stored_inf']} stored particle(s) with non-finite logl / outside the support"
             elif r["sites"]:
                 prob = f"iteration {it + 1}: {r['sites']}"
-        cfgd = {"n": n, "fins": fins, "d": d, "blob_mode": blob_mode, "vectorize": vectorize}
+        cfgd = {"n": n, "fins": fins, "d": d, "blob_mode": blob_mode, "vectorize": vectorize, "ret_form": ret_form}
         if prob:
             c.disagree(input=line, impl=prob, model=ans, **cfgd)
         c.sample({"op": line, "model_Z": ans, "impl_logz": [r["logz"] for r in done]})
@@ -367,7 +408,7 @@ def _correspond_evidence(tier, drv):
                     prob2 = f"iteration {it + 1}: committed u rows differ from the record model"
                 elif not np.array_equal(r["stored_x"], np.array(mx[it], dtype=float).reshape(n, d)):
                     prob2 = f"iteration {it + 1}: committed x rows differ from the record model"
-                elif not np.array_equal(r["stored_l"], np.array(ml[it], dtype=float)):
+                elif not np.array_equal(r["stored_l"], np.array([_stored_value(v, ret_form) for v in ml[it]], dtype=float)):
                     prob2 = f"iteration {it + 1}: committed logl differ from the record model: {r['stored_l'].tolist()} vs {ml[it]}"
                 elif (mb is None) != (r["stored_b"] is None):
                     prob2 = f"iteration {it + 1}: blobs history {'absent' if r['stored_b'] is None else 'present'} in the real sampler, {'absent' if mb is None else 'present'} in the record model"
@@ -497,14 +538,22 @@ def _correspond_real_rng(tier, drv):
         thr = 8.0 * (1.0 - f) - 4.0
         fin_log = []
 
-        def like(x, thr=thr, fin_log=fin_log):
+        form = rng.choice(("py", "py", "np_f32") + VEC_FORMS)
+        vec = form in VEC_FORMS
+
+        def like(x, thr=thr, fin_log=fin_log, form=form, vec=vec):
+            if vec:
+                X = np.atleast_2d(x)
+                vals = [(-np.inf if r[0] < thr else -0.5 * float(np.sum(r ** 2))) for r in X]
+                fin_log.extend(v != -np.inf for v in vals)
+                return _as_form(vals, form)
             l = -np.inf if x[0] < thr else -0.5 * float(np.sum(x ** 2))
             fin_log.append(l != -np.inf)
-            return l
+            return np.float32(l) if form == "np_f32" else l
         seed = rng.randrange(2 ** 31)
         np.random.seed(seed)
         s = Sampler(lambda u: 8.0 * u - 4.0, like, d, n_particles=n, clustering=False, ess_ratio=k - 0.5, volume_variation=vv,
-                    n_steps=1, n_max_steps=1)
+                    vectorize=vec, n_steps=1, n_max_steps=1)
         s._core._initialize_fresh()
         its = []
         with _quiet(), warnings.catch_warnings():
@@ -522,7 +571,8 @@ def _correspond_real_rng(tier, drv):
                             "nfin": int(sum(ev[-n:])) if len(ev) >= n else -1, "blocks_ok": len(ev) % n == 0 and len(ev) >= n and
                             all(not any(ev[j * n:(j + 1) * n]) for j in range(len(ev) // n - 1)),
                             "stored_inf": int(np.sum(~np.isfinite(stored)))})
-        runs.append(({"f": f, "n": n, "k": k, "d": d, "volume_variation": vv, "seed": seed}, its))
+        runs.append(({"f": f, "n": n, "k": k, "d": d, "volume_variation": vv, "seed": seed, "logl_form": form}, its))
+        c.count(f"logl_form={form}")
         ok_its = [t for t in its if "raised" not in t]
         lines.append("warmR.Q bs=" + (";".join(f"{n}:{max(t['nfin'], 1)}:{max(t['ndrawn'], n)}" for t in ok_its) or "1:1:1"))
         c.case((f, n, k, d, vv, seed), any(t["nfin"] < n or t["ndrawn"] > n for t in its))
@@ -643,7 +693,9 @@ def search(tier, hints):
     scripted = [(4, [2, 2], {}), (4, [2, 2, 2], {}), (8, [4, 8, 4, 8], {}), (16, [4, 4, 4, 4, 4], {}), (2, [1, 1, 1, 1, 1, 1], {}),
                 (8, [4, 4], {"blob_mode": "declared", "d": 2}), (8, [4, 8, 4], {"blob_mode": "undeclared", "d": 2}),
                 (8, [2, 6], {"vectorize": True, "d": 3}), (4, [[0, 2], 2, [0, 0, 4]], {}), (2, [[0, 0, 1], [0, 2]], {"blob_mode": "undeclared"})] + \
-               [(h["n"], h["fins"], {k: h[k] for k in ("d", "blob_mode", "vectorize") if k in h}) for h in hints if "fins" in h][:5]
+               [(8, [4, 4, 8], {"vectorize": True, "d": 2, "ret_form": fm}) for fm in VEC_FORMS[1:]] + \
+               [(4, [2, [0, 3], 4], {"ret_form": fm}) for fm in SCALAR_FORMS[1:]] + \
+               [(h["n"], h["fins"], {k: h[k] for k in ("d", "blob_mode", "vectorize", "ret_form") if k in h}) for h in hints if "fins" in h][:5]
     for n, fins, kw in scripted:
         recs = run_warmup(rng, n, fins, **kw)
         fracs = [_fin_last(f) / _ndrawn(f, n) for f in fins if _corrected(f, n)]
